@@ -42,7 +42,7 @@ pub fn from_ip(_args: &[String]) -> i32 {
 /// Prints block summaries, selected raw blocks, distinctness of the first M message ids,
 /// the minimal distance between equal message ids, and three blocks of action ids.
 pub fn txn(args: &[String]) -> i32 {
-    use btdht::verif::AIDGenerator;
+    use btdht::verif::{AIDGenerator, TransactionID};
     let b: usize = args[0].parse().unwrap();
     let m: usize = args[1].parse().unwrap();
     let extra_blocks = 3usize;
@@ -122,7 +122,15 @@ pub fn txn(args: &[String]) -> i32 {
     }
     writeln!(out, "min_gap {}", min_gap.map_or(-1i64, |g| g as i64)).unwrap();
     for (a, mm, bytes) in sample_tids {
-        writeln!(out, "tid {} {} {}", a, mm, hex::encode(bytes)).unwrap();
+        writeln!(out, "tid {} {} {}", a, mm, hex::encode(&bytes)).unwrap();
+        // from_bytes on every length 0..16 built from a real id (truncated / zero-extended): accepted?
+        let mut acc = String::new();
+        for n in 0..=16usize {
+            let mut v: Vec<u8> = bytes.clone();
+            v.resize(n, 0);
+            acc.push(if TransactionID::from_bytes(&v).is_some() { '1' } else { '0' });
+        }
+        writeln!(out, "frombytes {}", acc).unwrap();
     }
     drop(last_seen);
 
